@@ -287,10 +287,16 @@ def it_collect(se, env, pc, vals, cont):
     loop([], it, env, pc)
 
 
+def _sort_by_key_late(se, env, pc, vals, cont): return sort_by_key(se, env, pc, vals, cont)
+_sort_by_key_late.cps = True
+
+
 def std_summaries():
     S = {}
     P = {}
     S['$patterns'] = P
+    P[r'(?:core|std)::slice::<impl \[.*\]>::sort_by_key'] = _sort_by_key_late
+    P[r'<\[Vec<.*>; (\d+)\] as Default>::default'] = lambda se, env, pc: one(env, [[] for _ in range(7)])
     P[r'<.* as Iterator>::map'] = it_map
     P[r'<Map<.*> as Iterator>::sum'] = it_sum
     P[r'<.* as Iterator>::sum'] = it_sum
@@ -401,3 +407,36 @@ def ref_partial_ord(mir, ty):
     P[r'<&+%s as PartialEq>::eq' % ty] = eqf(False); P[r'<&+%s as PartialEq>::ne' % ty] = eqf(True)
     P[r'<%s as PartialEq>::ne' % ty] = eqf(True)
     return P
+
+
+@cps
+def sort_by_key(se, env, pc, vals, cont):
+    """slice::sort_by_key with a key closure: fork over the permutations consistent with the (stable) order of the keys."""
+    import itertools
+    r, clo = vals
+    lst = the_list(se, env, r)
+    n = len(lst)
+    if n > 4: raise Inconclusive('sort of more than 4 elements')
+    base = base_ref(se, env, r)
+    keys = []
+    def getkeys(i, env, pc):
+        if i == n: return have_keys(env, pc)
+        apply_closure(se, env, pc, clo, [Ref(base.local, base.path + (i,))], lambda k, e, p: (keys.append(k), getkeys(i + 1, e, p)))
+    def less(a, b):
+        if isinstance(a, dict) and a.get('__ty') == 'Reverse': return less(b[0], a[0])
+        if is_bv(a): return ULT(a, b)
+        raise Inconclusive('sort key %r' % (a,))
+    def eq(a, b):
+        if isinstance(a, dict) and a.get('__ty') == 'Reverse': return a[0] == b[0]
+        return a == b
+    def have_keys(env, pc):
+        ks = keys[-n:] if n else []
+        for perm in itertools.permutations(range(n)):
+            conds = []
+            for x, y in zip(perm, perm[1:]):
+                conds.append(Or(less(ks[x], ks[y]), And(eq(ks[x], ks[y]), BoolVal(x < y))))
+            c = And(*conds) if conds else BoolVal(True)
+            def go(perm=perm, c=c):
+                e = dict(env); se.store(e, r, [lst[i] for i in perm]); cont((), e, pc + [c])
+            se.under(c, go)
+    getkeys(0, env, pc)
